@@ -354,4 +354,131 @@ theorem scanWordMem : ∀ (es : List (List Part)), canonElems es = true →
     · exact scanWordMem xs h.2 e he
 end
 
+/-! ### `splitBraces (render t)` for canonical `t` -/
+
+theorem addParts_stack_nil (st : St) (ps : List Part) (h : st.stack = []) :
+    (st.addParts ps).stack = [] := by
+  unfold St.addParts; rw [h]
+
+theorem flush_stack_nil (st : St) (pend : Bytes) (h : st.stack = []) :
+    (st.flush pend).stack = [] := by
+  unfold St.flush; split
+  · exact h
+  · exact addParts_stack_nil _ _ h
+
+theorem feed_stack_nil (u : List Part) : ∀ (st : St) (pend : Bytes), st.stack = [] →
+    (feed st pend u).1.stack = [] := by
+  induction u with
+  | nil => intro st pend h; simpa [feed] using h
+  | cons p ps ih =>
+    intro st pend h
+    cases p with
+    | lit v => simp only [feed]; exact ih _ _ h
+    | brace s e =>
+      simp only [feed]
+      exact ih _ _ (addParts_stack_nil _ _ (flush_stack_nil _ _ h))
+
+@[simp] theorem hasBrace_nil : hasBrace [] = false := by simp [hasBrace]
+@[simp] theorem hasBrace_cons_lit (v : Bytes) (ps : List Part) :
+    hasBrace (.lit v :: ps) = hasBrace ps := by simp [hasBrace, Part.isLit]
+@[simp] theorem hasBrace_cons_brace (s : Bool) (e : List Word) (ps : List Part) :
+    hasBrace (.brace s e :: ps) = true := by simp [hasBrace, Part.isLit]
+@[simp] theorem isLit_lit (v : Bytes) : (Part.lit v).isLit = true := rfl
+@[simp] theorem isLit_brace (s : Bool) (e : List Word) : (Part.brace s e).isLit = false := rfl
+
+theorem mem_render_of_hasBrace (t : List Part) (h : hasBrace t = true) : cLB ∈ render t := by
+  induction t with
+  | nil => simp [hasBrace] at h
+  | cons p ps ih =>
+    cases p with
+    | lit v =>
+      simp only [hasBrace_cons_lit] at h
+      simp only [render_cons, renderPart_lit, List.mem_append]
+      exact Or.inr (ih h)
+    | brace s e => simp [renderPart_brace]
+
+theorem not_mem_render_of_lits (t : List Part) (hc : canon t = true) (h : hasBrace t = false) :
+    cLB ∉ render t := by
+  induction t with
+  | nil => simp
+  | cons p ps ih =>
+    obtain ⟨hp, hps, _⟩ := canon_cons p ps hc
+    cases p with
+    | lit v =>
+      simp only [hasBrace_cons_lit] at h
+      simp only [render_cons, renderPart_lit, List.mem_append, not_or]
+      refine ⟨?_, ih hps h⟩
+      intro hm
+      simp only [canonPart] at hp
+      have := List.all_eq_true.mp (safeLit_all v hp) cLB hm
+      simp [safeByte] at this
+    | brace s e => simp at h
+
+theorem allLit_of_not_hasBrace (t : List Part) (h : hasBrace t = false) : t.all Part.isLit = true := by
+  induction t with
+  | nil => simp
+  | cons p ps ih =>
+    cases p with
+    | lit v => simp only [hasBrace_cons_lit] at h; simp [ih h]
+    | brace s e => simp at h
+
+/-- The split of the text of a canonical tree is the tree itself, up to an empty trailing `Lit`. -/
+theorem split_canon (t : List Part) (hc : canon t = true) (hb : hasBrace t = true) :
+    (splitBraces (render t)).1 = t ∨ (splitBraces (render t)).1 = t ++ [.lit []] := by
+  unfold splitBraces
+  rw [if_neg (by simpa using mem_render_of_hasBrace t hb)]
+  have hscan := scanWord t hc ⟨[], []⟩ [] []
+  simp only [List.append_nil] at hscan
+  simp only [hscan, scan]
+  have hst := feed_stack_nil t ⟨[], []⟩ [] rfl
+  have hff := feed_flush t hc ⟨[], []⟩ [] (Or.inl rfl)
+  rw [flush_nil] at hff
+  generalize feed ⟨[], []⟩ [] t = res at hst hff
+  obtain ⟨st, pend⟩ := res
+  simp only at hst hff ⊢
+  have htop : (St.addParts ⟨[], []⟩ t) = ⟨t, []⟩ := by simp [St.addParts]
+  rw [htop] at hff
+  by_cases hp : pend = []
+  · subst hp
+    rw [flush_nil] at hff
+    subst hff
+    right
+    simp [St.add, St.addParts, unwind]
+  · rw [flush_ne_nil _ _ hp] at hff
+    left
+    rw [hff]
+    simp [unwind]
+
+theorem noOv_snoc_lit (t : List Part) (v : Bytes) : noOv (t ++ [.lit v]) = noOv t := by
+  simp [noOv_append]
+
+theorem denot_snoc_empty (t : List Part) : denot (t ++ [.lit []]) = denot t := by
+  rw [denot_append]
+  simp
+
+/-- Denotation and overflow-freedom of the split of a canonical tree's text. -/
+theorem split_canon_denot (t : List Part) (hc : canon t = true) :
+    denot (splitBraces (render t)).1 = denot t ∧
+    noOv (splitBraces (render t)).1 = noOv t := by
+  cases hb : hasBrace t with
+  | true =>
+    rcases split_canon t hc hb with h | h
+    · rw [h]; exact ⟨rfl, rfl⟩
+    · rw [h]; exact ⟨denot_snoc_empty t, noOv_snoc_lit t []⟩
+  | false =>
+    have hnm := not_mem_render_of_lits t hc hb
+    have hall := allLit_of_not_hasBrace t hb
+    unfold splitBraces
+    rw [if_pos hnm]
+    simp only
+    refine ⟨?_, ?_⟩
+    · rw [denot_allLit t hall]; simp [cross_single_left]
+    · clear hnm hc hall
+      induction t with
+      | nil => simp
+      | cons p ps ih =>
+        cases p with
+        | lit v => simp only [hasBrace_cons_lit] at hb; simpa using ih hb
+        | brace s e => simp at hb
+
 end ShVerif.C16
